@@ -93,6 +93,22 @@ class Frame:
         self.callpath = tuple(callpath)
 
 
+def _norm_static_text(txt):
+    pol = True
+    t = txt.strip()
+    while t.startswith("!") or t.startswith("not "):
+        t = t[1:] if t.startswith("!") else t[4:]
+        t = t.strip()
+        pol = not pol
+    while t.startswith("(") and t.endswith(")") and t.count("(") == t.count(")") == 1:
+        t = t[1:-1].strip()
+    return t, pol
+
+
+def fr_depth(fr):
+    return getattr(fr, "depth", 0) or 0
+
+
 class Builder:
     def __init__(self, db, max_depth=3, static_conds=None, oblige_hook=None, versioning=True):
         self.db = db
@@ -235,11 +251,16 @@ class Builder:
         cond = simplify(self.term(c, fr))
         if s.get("constexpr"):
             txt = astx.show(c)
+            exact = getattr(self, "static_exact", None) or {}
+            ntxt, pol = _norm_static_text(txt)
             for key, val in self.static_conds.items():
                 if key in txt:
                     cond = T.c(1 if val else 0)
                     break
             else:
+              if ntxt in exact and fr_depth(fr) == 0:
+                cond = T.c(1 if exact[ntxt] == pol else 0)
+              else:
                 if T.has_unknown(cond):
                     cond = ("unk", "static:" + txt)
         saved_l, saved_p = dict(fr.ctx.locals), dict(fr.ctx.param_subst)
